@@ -32,6 +32,20 @@ Section Machine.
     destruct (step_all base ti cs ms s (p ti g)) as [[ms1 s1] g1]. destruct (step_all base ti cs ms s (p' ti g')) as [[ms1' s1'] g1']. cbn [fst] in E. injection E as <- <-.
     apply IH.
   Qed.
+  (* another simulation created and stepped in between, in any interleaving, and whatever it does to the process-wide generator, leaves the
+     first simulation exactly where its standalone run puts it *)
+  Theorem interleaving_is_invisible baseA baseB csA csB : Forall ignores_global csA -> forall sched tiA msA sA tiB msB sB g g' perturb,
+    interleaved shared mstate draws gstate stream offset baseA baseB csA csB sched tiA msA sA tiB msB sB g =
+    fst (run baseA perturb csA (count_occ Bool.bool_dec sched true) tiA msA sA g').
+  Proof.
+    intros HF. induction sched as [|[|] t IH]; intros tiA msA sA tiB msB sB g g' p; [reflexivity| |].
+    - cbn [L6_Sim.interleaved count_occ]. destruct (Bool.bool_dec true true) as [_|N]; [|congruence]. cbn [L6_Sim.run].
+      pose proof (step_all_ignores_global baseA tiA csA HF msA sA g (p tiA g')) as E.
+      destruct (step_all baseA tiA csA msA sA g) as [[m1 s1] g1]. destruct (step_all baseA tiA csA msA sA (p tiA g')) as [[m1' s1'] g1']. cbn [fst] in E. injection E as <- <-.
+      apply IH.
+    - cbn [L6_Sim.interleaved count_occ]. destruct (Bool.bool_dec false true) as [N|_]; [discriminate|].
+      destruct (step_all baseB tiB csB msB sB g) as [[m1 s1] g1]. apply IH.
+  Qed.
   (* the seed of every distribution changes with the base seed *)
   Theorem seed_changes_with_base o b b' : b <> b' -> seed_gen o b <> seed_gen o b'.
   Proof. unfold seed_gen. lia. Qed.
